@@ -131,6 +131,9 @@ def _dict_to_obj(tpm_type, dict_obj: dict[str, any], command_code=None):
 def _to_obj(tpm_type, value, command_code=None):
     """If value is dict, tpm_type is the type it should be converted to."""
     if isinstance(value, dict):
+        if not value and fields(tpm_type):
+            # empty-field marker (empty size-prefixed structure, union arm without payload): the part is absent
+            return None
         return _dict_to_obj(tpm_type, value, command_code=command_code)
     elif isinstance(value, list):
         return _list_to_obj(tpm_type, value)
